@@ -245,8 +245,8 @@ type Script struct {
 	declared  map[string]bool
 	// relevance tags, parallel to Asserts: Defs[i] != "" marks the defining equation of that constant,
 	// Keys[i] != "" marks an axiom instance that matters only where the key term occurs
-	Defs []string
-	Keys []string
+	Defs  []string
+	Keys  []string
 	facts map[string]bool
 }
 
